@@ -24,6 +24,8 @@ from vf import bootstrap  # noqa: E402
 BASE_PY = "/venv/bin/python"
 NCPU = min(16, os.cpu_count() or 4)
 FINDINGS_FILE = os.path.join(ROOT, "known_findings.json")
+# evidence/ and replays/ normally live in /verif; seeded-change runs redirect them (they are not evidence)
+OUT = os.environ.get("VF_OUT_DIR") or ROOT
 
 
 # --------------------------------------------------------------------------- jobs
@@ -90,7 +92,7 @@ def run_replay(path, trace=False):
 
 
 def write_replay(prop, module, ob, res, kind):
-    d = os.path.join(ROOT, "replays", prop)
+    d = os.path.join(OUT, "replays", prop)
     os.makedirs(d, exist_ok=True)
     h = hashlib.sha1((res.get("args_b64", "") + ob.name).encode()).hexdigest()[:10]
     path = os.path.join(d, "%s-%s-%s.json" % (ob.name, kind, h))
@@ -340,7 +342,7 @@ def main(argv=None):
 
     findings = load_findings(prop)
     # replays of earlier runs are stale: rewritten by this run
-    for p in glob.glob(os.path.join(ROOT, "replays", prop, "*.json")):
+    for p in glob.glob(os.path.join(OUT, "replays", prop, "*.json")):
         if not a.ob or any(os.path.basename(p).startswith(n + "-") for n in a.ob):
             os.remove(p)
 
@@ -478,7 +480,7 @@ def write_evidence(prop, tier, seed, recs, wall, nviol, full=True):
             "%-formatting of symbolic numbers is abstracted to an opaque token (message text with numbers not modelled)",
         ] + ["stub: " + s for s in stubs],
     }
-    d = os.path.join(ROOT, "evidence")
+    d = os.path.join(OUT, "evidence")
     os.makedirs(d, exist_ok=True)
     with open(os.path.join(d, prop + ".json"), "w") as fp:
         json.dump(ev, fp, indent=1, sort_keys=True)
